@@ -497,13 +497,7 @@ func TypecheckPossiblyNullableStruct(ctx context.Context, env physical.Environme
 	if foundIndex == -1 {
 		panic(fmt.Errorf("expected object or union containing object, got %s", expr.Type))
 	}
-	targetType := octosql.Type{
-		TypeID: octosql.TypeIDUnion,
-		Union: struct{ Alternatives []octosql.Type }{Alternatives: []octosql.Type{
-			nonNullableExprType.Union.Alternatives[foundIndex],
-			octosql.Null,
-		}},
-	}
+	targetType := octosql.TypeSum(nonNullableExprType.Union.Alternatives[foundIndex], octosql.Null)
 	return physical.Expression{
 		Type:           targetType,
 		ExpressionType: physical.ExpressionTypeTypeAssertion,
